@@ -197,7 +197,8 @@ Fixpoint run_from (c : cfg) (c2s : bool) (s : st) (ops : list op) : list (list o
 Definition run (c : cfg) (ops : list op) : list (list obs) * st := run_from c (is_c2s ops) init ops.
 
 (* ------------------------------------------------------------------------------------------ *)
-(* The monitor for C15: the property as a predicate over ops and observations only.
+(* The monitors: the property as a predicate over ops and observations only.
+   STRICT form (used by C16: "truncated frames end that connection with an error"):
    framed: what the reader yields at Close is, in order, what was written (a message arrives
      unmodified except that a non-portable error kind arrives as Other; a hand-written payload
      arrives as what its value tree means, an unreadable one as an Err item), restricted to
@@ -255,7 +256,7 @@ Fixpoint whole_frames (es : list (obs * nat)) (kept : nat) : list obs * bool :=
     else ([], Nat.eqb kept 0)
   end.
 
-Definition framed_ok (c : cfg) (ops : list op) (tr : list (list obs)) : bool :=
+Definition framed_strict_ok (c : cfg) (ops : list op) (tr : list (list obs)) : bool :=
   let c2s := is_c2s ops in
   match collect (codec c) c2s ops tr with
   | None => false
@@ -295,6 +296,34 @@ Fixpoint chan_view (ops : list op) (tr : list (list obs)) : option (list (ch_op 
       end
     end
   | _, _ => None
+  end.
+
+Definition wire_strict_ok (c : cfg) (ops : list op) (tr : list (list obs)) : bool :=
+  if is_framed (codec c) then framed_strict_ok c ops tr
+  else match chan_view ops tr with
+       | Some (co, ct) => fifo_ok wmsg_eqb co ct
+       | None => false
+       end.
+
+(* ------------------------------------------------------------------------------------------ *)
+(* The monitor for C15 proper.  C15 demands complete, unmodified, in-order delivery and
+   end-of-stream after the last message; of a stream that ends inside a frame it demands only
+   that no frame is made up for the cut one and that the stream ends -- whether the end is
+   reported as an error is C16's clause (wire_strict_ok). *)
+Definition framed_ok (c : cfg) (ops : list op) (tr : list (list obs)) : bool :=
+  let c2s := is_c2s ops in
+  match collect (codec c) c2s ops tr with
+  | None => false
+  | Some (es, None, _, _) => true
+  | Some (es, Some got, ro, rt) =>
+    let total := fold_right (fun p a => snd p + a)%nat O es in
+    let lastlen := match rev es with (_, n) :: _ => n | [] => O end in
+    let kept := if Nat.eqb (cut c) 0 then total
+                else if Nat.ltb (cut c) lastlen then (total - lastlen + cut c)%nat else total in
+    let '(items, boundary) := whole_frames es kept in
+    (list_eqb obs_eqb got (items ++ [OEnd]) ||
+     (negb boundary && list_eqb obs_eqb got (items ++ [OStreamErr; OEnd]))) &&
+    forallb (fun l => match l with [] => true | _ => false end) rt
   end.
 
 Definition c15_ok (c : cfg) (ops : list op) (tr : list (list obs)) : bool :=
